@@ -50,8 +50,8 @@ func checkSignMessageOrder(r *Report, rule string) {
 			if wire, _, _, _ := P.encoderWireValueRaw(fn); wire != nil {
 				listV = projectField(wire, "Signatures")
 			}
-		} else if sts := P.receiverStores(fn); len(sts) == 1 {
-			listV = projectField(P.terms.of(sts[0].Val), "Signatures")
+		} else if sts := P.receiverWrites(fn); len(sts) == 1 {
+			listV = projectField(sts[0].val, "Signatures")
 		}
 		for d := 0; d < 3 && listV != nil; d++ {
 			if listV.Op == "res" && listV.S == "0" && listV.Args[0].Op == "call" {
